@@ -105,7 +105,7 @@ Definition toy_dec_step (st : tdst) (inp : list N) (cap : nat) (fl : flush) : lr
   let ob := lim (d_maxout st) cap in
   match dec_loop (2 * (length inp + cap) + 4) (d_ph st) (d_sum st) inp ib ob 0 [] with
   | (ph, sum, cn, rout, stop) =>
-    let out := rev rout in
+    let out := rev_append rout [] in
     let mid' := d_mid st || (0 <? cn) in
     match stop with
     | DsErr => mkL cn out LErr (mkTD ph sum mid' (d_maxin st) (d_maxout st) (d_finbuf st))
@@ -190,7 +190,7 @@ Fixpoint enc_loop (fuel : nat) (st : test) (inp : list N) (ib ob cn : nat) (rout
     let emit (_ : unit) :=
         let m := Nat.min (length (e_pend st)) ob in
         enc_loop f (upd (e_ibuf st) (skipn m (e_pend st)) (e_sum st) (e_started st) (e_ending st) (e_mid st))
-                 inp ib (ob - m) cn (rev (firstn m (e_pend st)) ++ rout) fl in
+                 inp ib (ob - m) cn (rev_append (firstn m (e_pend st)) rout) fl in
     let act (a : eact) :=
         match a with
         | ABlock last =>
@@ -230,7 +230,7 @@ Definition toy_enc_step (st : test) (inp : list N) (cap : nat) (fl : flush) : lr
   let ob := lim (e_maxout st) cap in
   match enc_loop (4 * (length inp + cap + length (e_pend st)) + 16) st inp ib ob 0 [] fl with
   | (st', cn, rout, stop) =>
-    let out := rev rout in
+    let out := rev_append rout [] in
     match stop with
     | EsEnd => mkL cn out LEnd st'
     | EsMore =>
@@ -267,17 +267,17 @@ Fixpoint ref_items (fuel : nat) (z : list N) (sum : nat) (racc : list N) : optio
   | O => None
   | S f =>
     match z with
-    | 0%N :: chk :: r => if nat_of_byte chk =? sum then Some (rev racc, r) else None
+    | 0%N :: chk :: r => if nat_of_byte chk =? sum then Some (rev_append racc [], r) else None
     | 1%N :: n :: r =>
       let k := nat_of_byte n in
       if (k =? 0) || (length r <? k) then None
-      else ref_items f (skipn k r) (sum256 sum (firstn k r)) (rev (firstn k r) ++ racc)
+      else ref_items f (skipn k r) (sum256 sum (firstn k r)) (rev_append (firstn k r) racc)
     | 2%N :: lo :: hi :: b :: r =>
       let k := nat_of_byte lo + 256 * nat_of_byte hi in
       if k =? 0 then None else ref_items f r (run_sum sum k b) (repeat b k ++ racc)
     | 3%N :: lo :: hi :: b :: r =>
       let k := nat_of_byte lo + 256 * nat_of_byte hi in
-      Some (rev (repeat b k ++ racc), r)
+      Some (rev_append (repeat b k ++ racc) [], r)
     | _ => None
     end
   end.
